@@ -1,26 +1,44 @@
-# C11 — parser part by agent-c10 (correspondence on malformed streams + theorems of Theorems/C11.lean).
-# The session-loop part (one completion per line, 20 errors close) is added by the lead: append its
-# oracles to SPEC["oracles"] and its theorems to Theorems/C11.lean (section "session loop").
+# C11 — parser part by agent-c10 (correspondence on malformed streams + theorems of Theorems/C11.lean);
+# session-loop part (one completion per line, maxSessionError errors close, the session stays usable; the real
+# server in a child process under a watchdog, a memory cap and a second session) by agent-c11s:
+# Model/SessionLoop.lean, Theorems/C11Session.lean, oracle c11session (harness/o_session*.go).
 SPEC = {
     "id": "C11",
     "level": "proof",
-    "theorem_modules": ["GluonModel.Theorems.C11"],
+    "theorem_modules": ["GluonModel.Theorems.C11", "GluonModel.Theorems.C11Session"],
     "correspondences": [
         {"dialect": "parsebad", "quick_n": 6000, "thorough_n": 300000, "judge": "judge-c11-parse"},
         # the reader loop of startCommandReader over several lines (Parse / ConsumeInvalidInput /
         # LastParsedTag / LastParsedCommand): the parser API the session-loop model builds on
         {"dialect": "parsen", "quick_n": 3000, "thorough_n": 100000},
     ],
-    "oracles": [],
+    "oracles": [
+        # whole server in a child process (default panic handler, RSS cap, SIGQUIT dump on a hang), arbitrary byte
+        # streams + disconnect, every observation judged by the Lean session-loop model (judge-c11-session),
+        # a second session issuing NOOP throughout. quick ~15 s, thorough ~3 min.
+        {"name": "c11session", "quick_args": ["-n", "1500", "-workers", "4"],
+         "thorough_args": ["-n", "120000", "-workers", "6", "-big", "1"], "timeout": 1500},
+    ],
+    "rule": "evaluations = parser op lines + byte streams sent to the real server; non-trivial (oracle) = distinct (stream kind, number of "
+            "complete lines, set of session-loop features the judge saw: parse-error, command, idle-start/-end, closed-errors, closed-logout, "
+            "bye-invalid-state, eof-midline, literal-eof, tls-handshake, bare-cr-lf) among the streams with at least one complete line",
     "trusted_base": [
         "Lean 4.33.0 kernel; axioms limited to propext, Classical.choice, Quot.sound (audited per theorem)",
         "hand-written model GluonModel/Model/Parse/{Scanner,Prim,Ast,Grammar}.lean of rfcparser/{scanner,parser}.go and imap/command/*.go with explicit fuel, tied to the real command.Parser by the `parsebad` correspondence dialect: mutated commands, same outcome class (ok + AST / parser error + token type / plain error / hang / panic) and same number of consumed bytes",
         "hang detection on the real parser: a reader that panics after 1000 reads at end of input (deterministic) plus a 20 s wall-clock backstop; model side: out of fuel at fuelFor(input) = 2*len+16",
+        "hand-written model GluonModel/Model/SessionLoop.lean of internal/session/command.go startCommandReader and internal/session/session.go serve (reader loop, ConsumeInvalidInput, TLS header sniffing, STARTTLS in the reader, BAD with res.command.Tag, errorCount / maxSessionError, reset on success, invalid-state BYE, LOGOUT, IDLE consuming one line) on top of the parser model; command handlers abstract (exactly one completion OK/NO/BAD per handled command). Tied to the real server by oracle c11session: the completions the server writes for a stream must be exactly what the model says (judge-c11-session), differential, not proof",
+        "regenerated source facts Generated/Facts/Session.lean (harness/facts_session.go, go/ast): maxSessionError, the closing comparison, the reset, tlsHeaders, skeletons of the reader's error branch, of handleIdle's loop, of handleStartTLS's nil-config branch, of Parse's return statements and of response.Bad; theorem session_facts_known fails when any of them changes",
+        "the wire observer of harness/o_session.go: what counts as a completion result (first word = tag, possibly EMPTY, second word OK/NO/BAD; `* BYE IMAP session state is inconsistent…`), literals in untagged responses skipped by their announced length; /proc/<pid>/status VmRSS/VmHWM and clear_refs for the memory observation; SIGQUIT goroutine dump for naming what a hung server was doing",
     ],
     "assumptions": [
-        "Go runtime limits (stack size, GC) are outside the model; recursion depth is stated as a function of the input (#18), not as 'fits the stack'",
-        "a read error other than end of input, and a failing continuation callback, are not modelled",
+        "Go runtime limits (stack size, GC) are outside the model; recursion depth is stated as a function of the input (#18), not as 'fits the stack'; the oracle observes the real process instead (stack overflow at 2e7 nesting levels, resident-set growth, time)",
+        "a read error other than end of input, a failing continuation callback, write errors on the connection and context cancellation are not modelled",
+        "session loop: state updates arriving between commands appear only as the backend's `invalid` flag; the TLS handshake after an accepted STARTTLS is not modelled (the model's stream ends there; the oracle's server has no TLS configuration); state.Idle failing to start is not modelled",
+        "the oracle never sends a line whose first byte is `*` (gluon accepts `*` as a tag and answers `* OK …`, which cannot be told from an untagged response on the wire)",
+        "for the two streams too large for the Lean driver (2e7 nesting levels, 16 MB line) the judge is given the same shape at 64 levels / bytes",
+        "timing: hang = no byte read or written for 2 s (plus 1 s per MB above 4 MB); second session: NOOP answered within 2 s",
     ],
-    "explanation": "parser part: parse_terminates at full strength (every byte string, fuel linear in the input length: any fuel > |input|, the driver uses 2|input|+16), parse_no_panic, parse_outcomes (command / *rfcparser.Error / io.EOF inside a literal, nothing else), depth_le_input + depth_unbounded (#18: recursion depth of parseSearchKey is bounded by the input length and by nothing smaller) over the fuel-explicit parser model; regression theorems and corpus for the repaired #7 (quoted string at EOF / over CRLF) and #17 ({0}, oversize literal); the model is tied to the real parser on malformed streams by differential testing (same outcome class, same error token type, same number of consumed bytes); the judge flags hang / panic / non-parser errors of the real parser",
-    "coverage_note": "parser part only; the session loop (one completion per line, 20 errors close) is not covered by these theorems; not covered: Go stack exhaustion by deep nesting (#18 is stated, not excluded), memory retained per command (retained_le_consumed not proved)",
+    "explanation": "parser part: parse_terminates at full strength (every byte string, fuel linear in the input length: any fuel > |input|, the driver uses 2|input|+16), parse_no_panic, parse_outcomes (command / *rfcparser.Error / io.EOF inside a literal, nothing else), depth_le_input + depth_unbounded (#18: recursion depth of parseSearchKey is bounded by the input length and by nothing smaller) over the fuel-explicit parser model; regression theorems and corpus for the repaired #7 (quoted string at EOF / over CRLF) and #17 ({0}, oversize literal); the model is tied to the real parser on malformed streams by differential testing (same outcome class, same error token type, same number of consumed bytes); the judge flags hang / panic / non-parser errors of the real parser. "
+                   "session-loop part (Theorems/C11Session.lean over Model/SessionLoop.lean, for every byte stream and every backend): session_loop_terminates (never hang / out of iterations / panic: every iteration consumes a byte and leaves a suffix, also after a failed Parse — Lemmas/ParseMono.lean — so the parser theorems apply to every line); lines_partition_the_stream, every_line_ends_with_lf, and — under the named hypotheses NoCurly (no `{`) and lfOk (no bare LF), via Lemmas/ParsePlain.lean: no parsing function moves over a CR or LF — line_is_up_to_first_lf_partial and completions_eq_crlf_lines_partial (the number of lines the reader finds, of reply groups, and of completions plus accepted IDLEs all equal the number of CRLF pairs of a stream that ends at a line boundary); one_completion_per_line (reply groups in line order, as many as lines unless serve closed, at most one completion each, the only empty group is an accepted IDLE which is answered by the next line: idle_is_the_only_unanswered_line, idle_ended_by_next_line); completion_tag_is_line_tag_or_empty (the line's own tag or an EMPTY tag, never another) with witnesses late_error_loses_tag / untagged_line_gets_empty_tag and error_tag_partial under the named hypothesis lateErrDropsTag = false; witnesses first_line_with_bad_first_byte_is_dropped, starttls_without_tls_is_dropped, bare_lf_splits_line; max_errors_close + fewer_errors_do_not_close (closed exactly when the counter reaches maxSessionError, not earlier), success_resets_counter, session_usable_after_error (serve's half) + reader_forgets_history (reader's half). The oracle runs the real server in a child process and reports, with stable cause= labels, what the model reproduces (late-error-empty-tag, untagged-line-empty-tag, first-line-bad-tag-drops, starttls-without-tls-drops) and what only the real process shows (search-nesting-quadratic-time, search-nesting-stack-overflow, search-nesting-memory-growth, hang, panic, memory-growth, canary-unanswered, model-mismatch)",
+    "coverage_note": "session loop: for streams that announce literals (`{`) or contain a bare LF the notion of 'line' is the reader model's (ends with LF, partition of the stream), tied to the real server by the oracle only; for the others it is 'up to the first LF' by theorem, and the judge cross-checks the line count against the number of CRLF on every such stream; IDLE pairing is proved per step, not as a statement about the whole reply list; the class of a handled command's completion (OK/NO/BAD) is taken from the observation, not predicted. Not covered: Go stack exhaustion by deep nesting as a theorem (#18 is stated and observed, not excluded), memory retained per command (retained_le_consumed proved for string arguments only), TLS",
 }
